@@ -94,6 +94,16 @@ Proof.
   destruct v; try reflexivity. congruence.
 Qed.
 
+(* member names are exact: a patch member named k2 never touches a different name k1, however
+   similar (letter case, Unicode look-alikes) *)
+Theorem member_names_exact t k1 k2 v : k1 <> k2 ->
+  obj_get k1 (members_of (impl_merge t (JObj [(k2, v)]))) = obj_get k1 (members_of t).
+Proof.
+  intros Hne. apply absent_member_untouched.
+  - simpl. constructor; [intros []|constructor].
+  - simpl. apply beq_bytes_neq in Hne. now rewrite Hne.
+Qed.
+
 Lemma merge_nonnull t p : p <> JNull -> impl_merge t p <> JNull.
 Proof. destruct p; simpl; congruence. Qed.
 
@@ -343,6 +353,15 @@ Proof.
   cbv zeta. split; [reflexivity|]. split; [apply nodupb_keys_NoDup; reflexivity|].
   repeat split; vm_compute; reflexivity.
 Qed.
+
+(* "bind" and "Bind" are different members: deleting "Bind" is a no-op, setting it adds a sibling *)
+Example bind_vs_Bind :
+  impl_merge (o [("bind", s "0.0.0.0:25565")]) (o [("Bind", JNull)]) = o [("bind", s "0.0.0.0:25565")] /\
+  impl_merge (o [("bind", s "0.0.0.0:25565")]) (o [("Bind", s "x")])
+  = o [("bind", s "0.0.0.0:25565"); ("Bind", s "x")] /\
+  impl_merge (o [("a", o [("x", n "1")])]) (o [("A", o [("y", n "2")])])
+  = o [("a", o [("x", n "1")]); ("A", o [("y", n "2")])].
+Proof. vm_compute. repeat split; reflexivity. Qed.
 
 (* a raw patch with a duplicated member name: Go keeps the last one *)
 Example duplicate_member_last_wins :
